@@ -5,6 +5,8 @@
 //!   event := 1 via cidmode reqmode alt client req pool tmin tmax tlo thi answer opt51 rows
 //!          | 2 d
 //!          | 3 rows
+//!          | 4 rows                      (Kill: rows of a copy of the store files taken while open)
+//!          | 5 ...as 1...                (Alloc whose reply is lost)
 //!
 //! The real code is `erbium::dhcp::pool::Pool::allocate_address` (via 0) or
 //! `erbium::dhcp::handle_pkt` with a DISCOVER (via 1) / REQUEST (via 2) packet.
@@ -35,9 +37,15 @@ pub enum Ev {
         pool: Vec<u32>,
         tmin: u64,
         tmax: u64,
+        /// the reply is produced but never reaches the client (crash before the send, packet
+        /// loss, a duplicate ACK the client discards): same execution, event token 5
+        lost: bool,
     },
     Tick(u32),
     Restart,
+    /// what a SIGKILL at this instant leaves behind: the database file (and any -journal/-wal)
+    /// copied while the connection is still open, the copy opened and dumped
+    Kill,
 }
 
 fn wall() -> u64 {
@@ -85,7 +93,11 @@ impl World {
 
     fn rows(&mut self, t: &mut Toks) {
         let shift = self.shift;
-        match self.pool.as_mut().unwrap().get_leases() {
+        Self::rows_of(self.pool.as_mut().unwrap(), shift, t);
+    }
+
+    fn rows_of(p: &mut pool::Pool, shift: u64, t: &mut Toks) {
+        match p.get_leases() {
             Ok(mut ls) => {
                 ls.sort_by_key(|l| u32::from(l.ip));
                 t.n(ls.len() as u64);
@@ -95,7 +107,7 @@ impl World {
             }
             Err(_) => {
                 // unreadable store: report the raw rows instead so the case still decodes
-                let raw = raw_rows(self.pool.as_ref().unwrap().verif_conn());
+                let raw = raw_rows(p.verif_conn());
                 t.n(raw.len() as u64);
                 for (a, c, s, e) in raw {
                     let ip: Ipv4Addr = a.parse().unwrap_or(Ipv4Addr::UNSPECIFIED);
@@ -120,6 +132,35 @@ impl World {
                 t.n(2).n(*d as u64);
                 stats.bump("ev.tick");
             }
+            Ev::Kill => {
+                assert!(!self.path.as_os_str().is_empty(), "kill needs a file store");
+                let src = self.path.to_str().unwrap().to_string();
+                let dst = format!("{}.kill", src);
+                for suffix in ["", "-journal", "-wal", "-shm"] {
+                    let _ = std::fs::remove_file(format!("{}{}", dst, suffix));
+                    let from = format!("{}{}", src, suffix);
+                    if std::path::Path::new(&from).exists() {
+                        std::fs::copy(&from, format!("{}{}", dst, suffix)).expect("copy store");
+                        if !suffix.is_empty() {
+                            stats.bump("kill.with-journal-or-wal");
+                        }
+                    }
+                }
+                t.n(4);
+                match pool::Pool::verif_open(&dst) {
+                    Ok(mut copy) => {
+                        Self::rows_of(&mut copy, self.shift, t);
+                    }
+                    Err(_) => {
+                        t.n(0);
+                        stats.bump("kill.copy-does-not-open");
+                    }
+                }
+                for suffix in ["", "-journal", "-wal", "-shm"] {
+                    let _ = std::fs::remove_file(format!("{}{}", dst, suffix));
+                }
+                stats.bump("ev.kill");
+            }
             Ev::Restart => {
                 assert!(!self.path.as_os_str().is_empty(), "restart needs a file store");
                 self.pool = None; // closes the connection
@@ -128,8 +169,11 @@ impl World {
                 self.rows(t);
                 stats.bump("ev.restart");
             }
-            Ev::Alloc { via, cidmode, reqmode, alt, client, req, pool: addrs, tmin, tmax } => {
-                t.n(1).n(*via as u64).n(*cidmode as u64).n(*reqmode as u64).n(*alt as u64);
+            Ev::Alloc { via, cidmode, reqmode, alt, client, req, pool: addrs, tmin, tmax, lost } => {
+                if *lost {
+                    stats.bump("ev.alloc.reply-lost");
+                }
+                t.n(if *lost { 5 } else { 1 }).n(*via as u64).n(*cidmode as u64).n(*reqmode as u64).n(*alt as u64);
                 t.bytes(client);
                 match req {
                     None => {
@@ -380,6 +424,8 @@ pub struct Gen {
     via_bias: u64, // out of 10: how often through handle_pkt
     steps_left: usize,
     last_client: usize,
+    lost_pct: u64,
+    kill_pct: u64,
 }
 
 fn subset(r: &mut Rng, from: &[u32], k: usize) -> Vec<u32> {
@@ -436,6 +482,8 @@ impl Gen {
             8 => (300, 900),
             _ => (r.range(0, 50), r.range(50, 2000)),
         };
+        let lost_pct = *r.pick(&[0u64, 0, 10, 25]);
+        let (tmin, tmax) = if lost_pct > 0 { (300, 86400) } else { (tmin, tmax) };
         let subnets = vec![s1, s2, s3];
         let cur_pool = match profile {
             Profile::Exhaust => {
@@ -466,6 +514,8 @@ impl Gen {
             via_bias: *r.pick(&[0, 3, 5, 10]),
             steps_left: steps,
             last_client: 0,
+            lost_pct,
+            kill_pct: 3,
         }
     }
 
@@ -495,6 +545,9 @@ impl Gen {
             return None;
         }
         self.steps_left -= 1;
+        if r.below(100) < self.kill_pct {
+            return Some(Ev::Kill);
+        }
         let p = r.below(100);
         match self.profile {
             Profile::Renewal => {
@@ -584,7 +637,10 @@ impl Gen {
             _ => Some(BASE + r.range(0, 20) as u32),
         };
         let via: u8 = if r.below(10) < self.via_bias { 1 + r.below(2) as u8 } else { 0 };
-        let (tmin, tmax) = if via != 0 {
+        let (tmin, tmax) = if via != 0 || self.lost_pct > 0 {
+            // (with lost replies the configured bounds stay fixed for the whole history, as they
+            // are in the running server: a LOWERED maximum legitimately cuts the remainder of a
+            // lease, which is outside C01_no_double_allocation_lossy)
             (300, 86400)
         } else if r.chance(1, 40) {
             (self.tmax + 1, self.tmin) // nonsense bounds: min > max
@@ -605,12 +661,14 @@ impl Gen {
             (cidmode, m + if r.chance(1, 4) { 4 } else { 0 }, alt)
         };
         // through handle_pkt a chaddr-only client needs its id as chaddr: fine for any length
-        Some(Ev::Alloc { via, cidmode, reqmode, alt, client, req, pool: self.cur_pool.clone(), tmin, tmax })
+        let lost = r.below(100) < self.lost_pct;
+        Some(Ev::Alloc { via, cidmode, reqmode, alt, client, req, pool: self.cur_pool.clone(), tmin, tmax, lost })
     }
 }
 
-pub fn run_history(r: &mut Rng, profile: Profile, thorough: bool, stats: &mut Stats) -> Toks {
+pub fn run_history(r: &mut Rng, profile: Profile, thorough: bool, kill_pct: u64, stats: &mut Stats) -> Toks {
     let mut g = Gen::new(r, profile, thorough);
+    g.kill_pct = kill_pct;
     let mut w = World::new();
     let mut body = Toks::new();
     let mut n = 0u64;
@@ -666,8 +724,9 @@ pub fn parse_case(toks: &[u64]) -> Option<Vec<Ev>> {
     let n = c.n()?;
     let mut evs = vec![];
     for _ in 0..n {
-        match c.n()? {
-            1 => {
+        let kind = c.n()?;
+        match kind {
+            1 | 5 => {
                 let via = c.n()? as u8;
                 let cidmode = c.n()? as u8;
                 let reqmode = c.n()? as u8;
@@ -701,12 +760,16 @@ pub fn parse_case(toks: &[u64]) -> Option<Vec<Ev>> {
                     }
                 }
                 c.skip_rows()?;
-                evs.push(Ev::Alloc { via, cidmode, reqmode, alt, client, req, pool, tmin, tmax });
+                evs.push(Ev::Alloc { via, cidmode, reqmode, alt, client, req, pool, tmin, tmax, lost: kind == 5 });
             }
             2 => evs.push(Ev::Tick(c.n()? as u32)),
             3 => {
                 c.skip_rows()?;
                 evs.push(Ev::Restart);
+            }
+            4 => {
+                c.skip_rows()?;
+                evs.push(Ev::Kill);
             }
             _ => return None,
         }
@@ -740,6 +803,13 @@ pub fn fixed_histories() -> Vec<Vec<Ev>> {
         pool: pool.to_vec(),
         tmin: 300,
         tmax: 86400,
+        lost: false,
+    };
+    let lose = |e: Ev| match e {
+        Ev::Alloc { via, cidmode, reqmode, alt, client, req, pool, tmin, tmax, .. } => {
+            Ev::Alloc { via, cidmode, reqmode, alt, client, req, pool, tmin, tmax, lost: true }
+        }
+        e => e,
     };
     let x = BASE + 1;
     let y = BASE + 9;
@@ -768,7 +838,8 @@ pub fn fixed_histories() -> Vec<Vec<Ev>> {
             Ev::Tick(150),
             a(b"c1", None, &[x]),
             Ev::Tick(1),
-            a(b"c1", None, &[x]),
+            lose(a(b"c1", None, &[x])),
+            Ev::Kill,
             Ev::Tick(301),
             a(b"c2", None, &[x]),
         ],
@@ -826,6 +897,7 @@ fn small_alphabet(full: bool) -> Vec<Ev> {
                     pool: p.clone(),
                     tmin: 300,
                     tmax: 86400,
+                    lost: false,
                 });
             }
         }
@@ -892,7 +964,7 @@ pub fn run(which: &str, args: &Args, out: &mut dyn Write) -> Stats {
             }
             k -= *w;
         }
-        let t = run_history(&mut r, profile, thorough, &mut stats);
+        let t = run_history(&mut r, profile, thorough, if which == "C18" { 12 } else { 3 }, &mut stats);
         writeln!(out, "{}", t.0).unwrap();
     }
     stats
